@@ -181,6 +181,9 @@ func runC06(r *Report) {
 	}
 	// R5 PEX siblings
 	c06R5(r, read)
+	// the codec hands large payloads straight to the connection: on an RC4 connection they are transparent only if
+	// crypto.Conn.Write encrypts each chunk of a large write from the right place (C08.R6 re-evaluated)
+	c08R6(r.sub("R7"))
 	c06R6(r)
 }
 
